@@ -100,7 +100,7 @@ func zzCheckStream(ts TokenStream, in []byte) {
 			// known finding: an empty string token (after a string template) still advances the column
 			zzKnownFinding("C37-column-drift-after-empty-string-token", len(or.emptyLines) > 0)
 			zzAssert("columns-match-offsets-in-one-convention", or.strictByte || or.strictRune)
-			zzKnownFinding("C37-column-drift-after-empty-string-token", false)
+			zzKnownFindingEnd("C37-column-drift-after-empty-string-token")
 			// known finding: the text after the last delimiter of an unterminated block comment
 			// is in no token
 			zzKnownFinding("C37-unterminated-block-comment-content-not-emitted", depth > 0)
